@@ -3,7 +3,7 @@ from ..core import AnalysisError, term_s, subterms
 from ..paths import PathEnum
 from ..seqshape import pieces_of, success_leaf, is_try_cond
 from ..tables import enum_const_table
-from .util import payload_of, propagated_error, option_is_some, cond_holds, const_of, is_call, look, norm, truth, transforms, last_seg
+from .util import writer_roots, payload_of, propagated_error, option_is_some, cond_holds, const_of, is_call, look, norm, truth, transforms, last_seg
 from .c16 import status_table
 from .fields import field_writers
 
@@ -491,10 +491,10 @@ def set_body(ctx):
     # writers
     allowed_len = {"response::ResponseHeaders::set_content_length", "<response::ResponseHeaders as std::default::Default>::default", "response::Response::new"}
     for w in field_writers(facts, RH, "content_length"):
-        ctx.ob("R05.3", "writers|content_length|%s" % w[0], w[0] in allowed_len, "writer of ResponseHeaders.content_length: %s (%s)" % (w[0], w[3]), w[2])
+        ctx.ob("R05.3", "writers|content_length|%s" % w[0], writer_roots(facts, w[0]) <= allowed_len, "writer of ResponseHeaders.content_length: %s (%s)" % (w[0], w[3]), w[2])
     allowed_body = {"response::Response::new", "response::Response::set_body"}
     for w in field_writers(facts, "response::Response", "body"):
-        ctx.ob("R05.3", "writers|body|%s" % w[0], w[0] in allowed_body, "writer of Response.body: %s (%s)" % (w[0], w[3]), w[2])
+        ctx.ob("R05.3", "writers|body|%s" % w[0], writer_roots(facts, w[0]) <= allowed_body, "writer of Response.body: %s (%s)" % (w[0], w[3]), w[2])
     # callers of set_content_length: only the public pass-through and set_body
     callers = set()
     for g in facts.fns.values():
